@@ -60,6 +60,13 @@ def inject(xt_dir, scratch, modules, attr_inserts=()):
     return hdir
 
 
+def _limit_memory():
+    """Cap each verifier process's address space so a runaway CBMC cannot take the machine down (no swap)."""
+    import resource
+    gb = int(os.environ.get('VERIF_MEM_GB', '20'))
+    resource.setrlimit(resource.RLIMIT_AS, (gb << 30, gb << 30))
+
+
 def run_kani(xt_dir, harness_names, jobs, harness_timeout, outer_timeout, extra=(), log_path=None):
     """One cargo-kani invocation for all harnesses; returns dict(json, stdout, rc, wall_s, timeout)."""
     out_json = os.path.join(os.path.dirname(xt_dir), 'kani-out.json')
@@ -76,7 +83,7 @@ def run_kani(xt_dir, harness_names, jobs, harness_timeout, outer_timeout, extra=
     timed_out = False
     try:
         p = subprocess.run(cmd, cwd=xt_dir, env=env, stdout=subprocess.PIPE, stderr=subprocess.STDOUT, text=True,
-                           timeout=outer_timeout)
+                           timeout=outer_timeout, preexec_fn=_limit_memory)
         out, rc = p.stdout, p.returncode
     except subprocess.TimeoutExpired as e:
         out = (e.stdout or b'').decode('utf-8', 'replace') if isinstance(e.stdout, bytes) else (e.stdout or '')
